@@ -365,3 +365,87 @@ Print Assumptions run_alpha_partial.
 Print Assumptions C14_run_alpha_partial.
 Print Assumptions example_alpha_program.
 Print Assumptions example_alpha_run.
+
+(* The Go methods the run-time half rests on — the methods `Substitute` of the form types of process/form.go — TRANSLATED
+   from the current source on this run (`probe formops`, go/ast -> gen/FormOps.v, a table of the IR
+   of FormIR.v): the interpretation of what the code says NOW is the model `Subst.subst` that the
+   theorems above are about (which binder stops which substitution, in which order). *)
+Require Grits.FormIR Grits.gen.FormOps Grits.proofs.FormOpsAgree.
+Theorem C14_formops_structs : FormIR.t_structs FormOps.table = FormIR.expected_structs.
+Proof. exact FormOpsAgree.formops_structs. Qed.
+Theorem C14_formops_subst_wf : FormIR.subst_table_ok FormOps.table = true.
+Proof. exact FormOpsAgree.formops_subst_wf. Qed.
+Theorem C14_formops_subst_agrees : forall old new f, FormIR.ir_subst FormOps.table old new f = Subst.subst old new f.
+Proof. exact FormOpsAgree.formops_subst_agrees. Qed.
+Theorem C14_formops_subst_brs_agrees : forall old new b, FormIR.ir_subst_brs FormOps.table old new b = Subst.subst_brs old new b.
+Proof. exact FormOpsAgree.formops_subst_brs_agrees. Qed.
+
+(* FreeNames of the form types and the four list helpers it is written with (translated as small
+   list programs): their interpretation is `Subst.free_names` / `append_if_not_self` / `remove_bound` /
+   `name_exists` / `merge_names` — which bound names are removed, from which sub-list, merged how. *)
+Theorem C14_formops_helpers_wf : FormIR.helpers_ok FormOps.table = true.
+Proof. exact FormOpsAgree.formops_helpers_wf. Qed.
+Theorem C14_formops_append_agrees : forall n l, FormIR.ir_append_if_not_self FormOps.table n l = Subst.append_if_not_self n l.
+Proof. exact FormOpsAgree.formops_append_agrees. Qed.
+Theorem C14_formops_remove_agrees : forall l b, FormIR.ir_remove_bound FormOps.table l b = Subst.remove_bound l b.
+Proof. exact FormOpsAgree.formops_remove_agrees. Qed.
+Theorem C14_formops_exists_agrees : forall l c, FormIR.ir_name_exists FormOps.table l c = Subst.name_exists l c.
+Proof. exact FormOpsAgree.formops_exists_agrees. Qed.
+Theorem C14_formops_merge_agrees : forall a b, FormIR.ir_merge_names FormOps.table a b = Subst.merge_names a b.
+Proof. exact FormOpsAgree.formops_merge_agrees. Qed.
+Theorem C14_formops_free_names_agrees : forall f, FormIR.ir_free_names FormOps.table f = Subst.free_names f.
+Proof. exact FormOpsAgree.formops_free_names_agrees. Qed.
+Theorem C14_formops_free_names_brs_agrees : forall acc b,
+  fold_left (FormIR.ir_merge_names FormOps.table) (FormIR.ir_free_names_brs FormOps.table b) acc = Subst.free_names_brs acc b.
+Proof. exact FormOpsAgree.formops_free_names_brs_agrees. Qed.
+(* FormHasContinuation's case list, and CopyForm: every case goes through the constructor of its own
+   type, every Form / slice field reaches the copy through a deep copy (no aliasing between the copy
+   and the original: `copy_table_ok`), and on the model's immutable terms CopyForm is the identity up
+   to the fields its constructors reset (`copy_norm`: to_drop of a forward, ProviderType of a call). *)
+Theorem C14_formops_has_continuation_agrees : forall f, FormIR.ir_has_continuation FormOps.table f = Forms.has_continuation f.
+Proof. exact FormOpsAgree.formops_has_continuation_agrees. Qed.
+Theorem C14_formops_copy_wf : FormIR.copy_table_ok FormOps.table = true.
+Proof. exact FormOpsAgree.formops_copy_wf. Qed.
+Theorem C14_formops_copy_agrees : forall f, FormIR.ir_copy FormOps.table f = FormIR.copy_norm f.
+Proof. exact FormOpsAgree.formops_copy_agrees. Qed.
+Theorem C14_formops_copy_identity : forall f, FormIR.copy_stable f = true -> FormIR.ir_copy FormOps.table f = f.
+Proof. exact FormOpsAgree.formops_copy_identity. Qed.
+
+Print Assumptions C14_formops_structs.
+Print Assumptions C14_formops_subst_wf.
+Print Assumptions C14_formops_subst_agrees.
+Print Assumptions C14_formops_subst_brs_agrees.
+Print Assumptions C14_formops_helpers_wf.
+Print Assumptions C14_formops_append_agrees.
+Print Assumptions C14_formops_remove_agrees.
+Print Assumptions C14_formops_exists_agrees.
+Print Assumptions C14_formops_merge_agrees.
+Print Assumptions C14_formops_free_names_agrees.
+Print Assumptions C14_formops_free_names_brs_agrees.
+Print Assumptions C14_formops_has_continuation_agrees.
+Print Assumptions C14_formops_copy_wf.
+Print Assumptions C14_formops_copy_agrees.
+Print Assumptions C14_formops_copy_identity.
+
+(* Name.Initialized / Name.Equal / Name.Substitute of process/name.go, translated on this run
+   (`probe nameops` -> gen/NameOps.v, IR of NameIR.v): what the code says now is Subst.name_equal /
+   Subst.name_subst (with the F12 repair: a name without a channel only stands for a variable). *)
+Require Grits.NameIR Grits.gen.NameOps Grits.proofs.NameOpsAgree.
+Theorem C14_nameops_fields : NameOps.name_fields = NameIR.expected_name_fields.
+Proof. exact NameOpsAgree.nameops_fields. Qed.
+Theorem C14_nameops_init_wf : NameIR.name_init_ok NameOps.name_ops = true.
+Proof. exact NameOpsAgree.nameops_init_wf. Qed.
+Theorem C14_nameops_subst_wf : NameIR.name_subst_ok NameOps.name_ops = true.
+Proof. exact NameOpsAgree.nameops_subst_wf. Qed.
+Theorem C14_nameops_initialized_agrees : forall n, NameIR.ir_initialized NameOps.name_ops n = Subst.initialized n.
+Proof. exact NameOpsAgree.nameops_initialized_agrees. Qed.
+Theorem C14_nameops_equal_agrees : forall a b, NameIR.ir_name_equal NameOps.name_ops a b = Subst.name_equal a b.
+Proof. exact NameOpsAgree.nameops_equal_agrees. Qed.
+Theorem C14_nameops_subst_agrees : forall old new n, NameIR.ir_name_subst NameOps.name_ops old new n = Subst.name_subst old new n.
+Proof. exact NameOpsAgree.nameops_subst_agrees. Qed.
+Print Assumptions C14_nameops_fields.
+Print Assumptions C14_nameops_init_wf.
+Print Assumptions C14_nameops_subst_wf.
+Print Assumptions C14_nameops_initialized_agrees.
+Print Assumptions C14_nameops_equal_agrees.
+Print Assumptions C14_nameops_subst_agrees.
